@@ -382,13 +382,13 @@ fn gadgets(out: &mut dyn Write, r: &mut ChaCha20Rng, n: usize) {
             if m == Mode::Input && (g.starts_with("alloc:omit") || *g == "alloc:AffinePoint" && false) {
                 continue;
             }
-            let npairs = if g.starts_with("scalar_mul") { 3 } else { 10 + n / 10 };
+            let npairs = if g.starts_with("scalar_mul") { 3 } else { 14 + n / 10 };
             for t in 0..npairs {
                 cnt += 1;
                 if cnt % 60 == 0 {
                     emit(out, json!({"k":"reset","build":BUILD}));
                 }
-                let p = if t < 8 { al[t % NREG] } else { Element::encode_to_curve(&rand_fq(r)) };
+                let p = if t < NREG { al[t % NREG] } else { Element::encode_to_curve(&rand_fq(r)) };
                 let q = match t % 5 {
                     0 => p,
                     1 => -p,
@@ -450,7 +450,7 @@ fn lazy(out: &mut dyn Write, r: &mut ChaCha20Rng, seqs: &[String]) {
                     emit(out, json!({"k":"reset","build":BUILD}));
                 }
                 let e = match ci {
-                    0 => al[2 + cnt % 6],
+                    0 => al[2 + cnt % 10],
                     1 => al[cnt % 2],
                     _ => Element::encode_to_curve(&rand_fq(r)),
                 };
@@ -578,7 +578,7 @@ fn hints(out: &mut dyn Write, r: &mut ChaCha20Rng, n: usize) {
     emit(out, json!({"k":"reset","build":BUILD}));
     let al = alphabet(r);
     for t in 0..(40 + n) {
-        let base = if t < 8 { al[t] } else { Element::encode_to_curve(&rand_fq(r)) };
+        let base = if t < NREG { al[t] } else { Element::encode_to_curve(&rand_fq(r)) };
         let c = Affine::from(base).verif_raw();
         let lam = rand_fq(r);
         let (x, y, class) = match t % 6 {
@@ -801,8 +801,8 @@ fn circuits(out: &mut dyn Write, r: &mut ChaCha20Rng, n: usize, prove: bool) {
     emit(out, json!({"k":"reset","build":BUILD}));
     let al = alphabet(r);
     for t in 0..n.max(1) {
-        let a = if t < 8 { al[t % 8] } else { Element::encode_to_curve(&rand_fq(r)) };
-        let b = if t % 3 == 0 { al[(t + 3) % 8] } else { Element::encode_to_curve(&rand_fq(r)) };
+        let a = if t < NREG { al[t % NREG] } else { Element::encode_to_curve(&rand_fq(r)) };
+        let b = if t % 3 == 0 { al[(t + 3) % NREG] } else { Element::encode_to_curve(&rand_fq(r)) };
         let mut scalar = [0u8; 32];
         if t > 0 {
             r.fill_bytes(&mut scalar);
@@ -878,8 +878,8 @@ fn shapes(out: &mut dyn Write, r: &mut ChaCha20Rng, n: usize) {
         }
     }
     // public input: exactly one instance variable, equal to the element's field encoding = ToConstraintField
-    for t in 0..(8 + n) {
-        let p = if t < 8 { al[t] } else { Element::encode_to_curve(&rand_fq(r)) };
+    for t in 0..(NREG + n) {
+        let p = if t < NREG { al[t] } else { Element::encode_to_curve(&rand_fq(r)) };
         let inst = instance_assignment(PublicElementInput { point: p });
         use ark_ff::ToConstraintField;
         let tcf: Vec<Vec<u8>> = p.to_field_elements().unwrap().iter().map(fq_bytes).collect();
